@@ -45,6 +45,13 @@ META = {
         "amount is expected to be accepted only for tokens with borrowingEnabled",
         "e-mode, isolation mode, supply/borrow caps and the zero-LTV withdrawal rule of Aave v3 are outside the statement",
         "liquidation (Market.update) is never triggered here; C12 covers it",
+        "amounts carry 35 significant digits: a withdrawal verdict is 'either' when the kept collateral (supplied - "
+        "requested) cannot be told from the debt within 1e-33 of the supplied value (only matters for debts below "
+        "~1e-24 of the collateral)",
+        "the code counts a scaled balance below 1e-18 as nothing (helper.sub_base_amount, documented); 'health factor "
+        ">= 1 after an accepted withdrawal' is therefore judged up to one such dropped residue of the withdrawn "
+        "collateral when a partial withdrawal removed the position (only matters for debts worth less than 1e-18 "
+        "units of that collateral)",
     ],
 }
 NSHARDS = 16
@@ -52,6 +59,7 @@ TOKEN_POOL = [("WETH", 18), ("USDC", 6), ("WBTC", 8), ("DAI", 18), ("LINK", 18),
 FIG_TOL = Fraction(1, 10**28)
 POS_REL = Fraction(1, 10**25)
 POS_ABS = Fraction(1, 10**18)
+DUST_SCALED = Fraction(1, 10**18)  # scaled balances below this are dropped by the code (helper.MIN_TOKEN_VALUE)
 CTX = Context(prec=30, rounding=ROUND_DOWN)
 WIDE = Context(prec=80)
 WALLET = Decimal(10) ** 24
@@ -163,7 +171,7 @@ class Walk:
         self.mon.violation("aave", operation, clause, site, f"{detail} | last ops {self.trace[-4:]}", d)
 
     # ------------------------------------------------------------------ observation after every step
-    def observe(self, op, outcome, user_op=False, hf_before=None, always_hf=False):
+    def observe(self, op, outcome, user_op=False, hf_before=None, always_hf=False, dust_token=None):
         """portfolio vs ledger, figures vs definitions, HF >= 1 after an accepted user operation."""
         mon, m = self.mon, self.m
         where = f"after-{op}-{outcome}"
@@ -249,6 +257,12 @@ class Walk:
             if always_hf or before_ok:
                 mon.ev()
                 h = pf.healthy()
+                if h == O.REJECT and dust_token is not None and dust_token not in pf.supplies:
+                    # a partial withdrawal left a scaled residue below 1e-18 of this collateral and the code counts
+                    # that as nothing (demeter/aave/helper.py sub_base_amount): judge the state up to that residue
+                    extra = DUST_SCALED * li[dust_token] * pf.prices[dust_token] * self.risk[dust_token]["lt"]
+                    if O.side(pf.lt_sum() + extra, pf.total_debt()) != O.REJECT:
+                        h = "dust-residue-dropped"
                 mon.cls(f"hf-after/{op}/{h}")
                 if h == O.REJECT:
                     self.violation(op, "hf-below-1-after-accepted", "always" if always_hf else "was-healthy-before",
@@ -346,7 +360,9 @@ class Walk:
         if ok:
             everything = amount is None or (reported is not None and amount == reported)
             self.led.withdraw(name, reported if amount is None else amount, self.idx("s")[name], everything)
-        self.observe("withdraw", "accepted" if ok else "rejected", True, hf_before, always_hf=coll)
+        partial = amount is not None and not (reported is not None and amount == reported)
+        self.observe("withdraw", "accepted" if ok else "rejected", True, hf_before, always_hf=coll,
+                     dust_token=name if (ok and coll and partial) else None)
         return res
 
     def do_flag(self, name, flag, fclass):
@@ -569,7 +585,8 @@ class Walk:
                                f"{to_dec(lim)}; portfolio {self.describe(pf)}")
             if res.ok:
                 self.led.withdraw(name, mw, self.idx("s")[name], mw == reported)
-            self.observe("withdraw", outcome, True, hf_before, always_hf=pf.supplies[name][1])
+            self.observe("withdraw", outcome, True, hf_before, always_hf=pf.supplies[name][1],
+                         dust_token=name if (res.ok and pf.supplies[name][1] and mw != reported) else None)
         else:
             self.do_withdraw(name, self.quant(name, F(mw) * (1 + Fraction(1, 10**6))), "helper*(1+1e-6)")
 
